@@ -89,10 +89,14 @@ type c16Case struct {
 	Sources   []c16Src      `json:"sources"`
 	Bases     []c16Src      `json:"bases,omitempty"`
 	DiffBase  bool          `json:"diff_base,omitempty"`
-	Schedules [][]int       `json:"schedules"`                 // per schedule: delay in µs for sources ++ bases
-	AltKinds  []string      `json:"alt_kinds,omitempty"`       // other way of failing for failing sources ("" = same); run under Schedules[0]
-	Text      bool          `json:"text,omitempty"`            // also check -traces and -top
-	CLI       bool          `json:"cli,omitempty"`             // run through the pprof binary (file kinds only)
+	Schedules [][]int       `json:"schedules"`            // per schedule: delay in µs for sources ++ bases
+	AltKinds  []string      `json:"alt_kinds,omitempty"`  // other way of failing for failing sources ("" = same); run under Schedules[0]
+	Text      bool          `json:"text,omitempty"`       // also check -traces and -top
+	CLI       bool          `json:"cli,omitempty"`        // run through the pprof binary (file kinds only)
+	Burst     bool          `json:"burst,omitempty"`      // all fetches that have arrived are released at the same instant (c16_burst.go)
+	NoTool    bool          `json:"no_tool,omitempty"`    // PATH lacks perf_to_profile: every PERFILE2 file fails to convert
+	StdUI     bool          `json:"default_ui,omitempty"` // Options.UI == nil, run in a child process whose stderr is checked line by line
+	Rounds    int           `json:"rounds,omitempty"`
 	Perf      bool          `json:"perf_conversion,omitempty"` // perf.data sources converted by the stand-in perf_to_profile (c16_perf.go)
 	Units     bool          `json:"units,omitempty"`           // sources report their sample types in different compatible units (c16_units.go)
 	Bin       bool          `json:"binary_location,omitempty"` // mappings are located under a generated $PPROF_BINARY_PATH tree (c16_bin.go)
@@ -347,7 +351,8 @@ type c16Run struct {
 	maxActive  [2]int
 	completion [2][]int
 	unknown    int
-	gate       *c16Gate // non-nil: fetches are released one after the other by rank
+	gate       *c16Gate  // non-nil: fetches are released one after the other by rank
+	burst      *c16Burst // non-nil: fetches are released together
 }
 
 func (r *c16Run) begin(s *c16Slot) {
@@ -399,6 +404,9 @@ func (r *c16Run) Fetch(src string, duration, timeout time.Duration) (*profile.Pr
 		return nil, "", errors.New("c16: unknown source")
 	}
 	r.begin(s)
+	if r.burst != nil {
+		r.burst.arrive()
+	}
 	if c16IsHTTP(s.src.Kind) {
 		return nil, "", nil // completion is recorded by the transport
 	}
@@ -605,6 +613,15 @@ func c16ExecOrd(root string, cs *c16Case, kinds []string, delays, order []int, f
 	if order != nil {
 		run.gate = newC16Gate()
 	}
+	if cs.Burst {
+		run.burst = newC16Burst()
+		defer close(run.burst.stop)
+	}
+	if cs.NoTool && c16OrigPath != "" {
+		cur := os.Getenv("PATH")
+		os.Setenv("PATH", c16OrigPath)
+		defer os.Setenv("PATH", cur)
+	}
 	bodies := map[string][]byte{}
 	var args, bases []string
 	for i, s := range cs.all() {
@@ -645,6 +662,9 @@ func c16ExecOrd(root string, cs *c16Case, kinds []string, delays, order []int, f
 	ui := &c16UI{}
 	w := &c16Writer{bufs: map[string]*bytes.Buffer{}}
 	o := &driver.Options{Writer: w, Flagset: fl, Fetch: run, Sym: c16Sym{}, Obj: c16Obj{}, UI: ui, HTTPTransport: run}
+	if cs.StdUI && os.Getenv("PVC16_STDUI_CASE") != "" {
+		o.UI = nil // the driver's default UI: writes to this process' stderr
+	}
 	if cs.Bin {
 		// the same directory for every run of the case: the located file names are part of the report
 		tree := filepath.Join(root, "bintree")
@@ -1296,6 +1316,10 @@ func (k *c16Checker) runCase(cs *c16Case) {
 		k.runCLI(cs)
 		return
 	}
+	if cs.StdUI {
+		k.runStdUI(cs)
+		return
+	}
 	n, m := len(cs.Sources), len(cs.Bases)
 	kinds := c16Kinds(cs, false)
 	exp := c16Expected(cs, kinds)
@@ -1404,6 +1428,12 @@ func (k *c16Checker) runCase(cs *c16Case) {
 	if cs.Perf {
 		c.Res.Hit("perf-conversion-cases")
 	}
+	if cs.Burst {
+		c.Res.Hit("burst-cases")
+		if cs.NoTool {
+			c.Res.Hit("burst-cases-without-tool")
+		}
+	}
 	if cs.Units {
 		c.Res.Hit("units-cases")
 		k.modelUnits(cs, kinds, exp)
@@ -1494,6 +1524,14 @@ func (k *c16Checker) runCLI(cs *c16Case) {
 			// the final "pprof: failed to fetch any …" line names no source
 			if m := c16TokRe.FindStringSubmatch(l); m != nil {
 				obs.ErrCount[m[1]]++
+			}
+			// the binary's own UI: a line never carries the messages of two sources
+			distinct := map[string]bool{}
+			for _, t := range c16TokRe.FindAllStringSubmatch(l, -1) {
+				distinct[t[1]] = true
+			}
+			if len(distinct) > 1 {
+				c.Violation("C16/stderr/merged-lines", fmt.Sprintf("[%s cli -%s] a stderr line of the pprof binary carries the messages of several sources: %s", cs.Name, format, trunc16(l)), cs)
 			}
 		}
 		for i, s := range cs.all() {
@@ -1695,7 +1733,7 @@ func runC16(c *Ctx) {
 }
 
 func c16Worker(c *Ctx) {
-	c.Res.Rule = "cases: 1…300 sources (all sizes 1-8 with every outcome vector and EVERY completion order for n=3, sizes around the 127/128/129 and 255/256/257 chunk boundaries, random sizes) × 0…130 -base/-diff_base sources, each source independently a valid profile (from the Fetcher plug-in, a file, or an HTTP body), or failing (Fetcher error, missing file, garbage file/body, invalid profile, HTTP 500, transport error); a stream of 2…8 sources (+ bases) mixing https:// (untrusted server: must fail; server trusted through -tls_ca: must succeed), https+insecure://, http:// and file/plug-in sources fetched through the PRODUCTION internal/transport against servers on 127.0.0.1, released one after the other in PRNG permutations, all-insecure-first and all-strict-first orders, plus one delay-scheduled run through the driver's default transport wiring; a stream of 2…7 sources (+ bases) whose mappings (same file name under several build ids, some without build id) are located under a generated $PPROF_BINARY_PATH tree (<buildid>/<name>, plain <name>, stale and missing entries) through a mock ObjTool, with failing neighbours, under ≥3 delay schedules; a stream of perf.data sources with EQUAL base names in different directories, converted concurrently by a stand-in perf_to_profile (this binary re-executed) whose writes and exits are staggered so that the conversions overlap; a stream of sources reporting the same sample types in different compatible units (ns/us/ms/s, bytes/kB/MB) in every position with failing neighbours (merged values = sum of the per-source values converted to the finest unit among the successful ones); each case runs the real driver.PProf under ≥3 PRNG-derived delay schedules (random, reverse, failures-first) and with the failing sources failing differently. non-trivial = ≥2 sources, at least one success and one failure, an observed completion order that is not the command-line order and ≥2 distinct observed completion orders."
+	c.Res.Rule = "cases: 1…300 sources (all sizes 1-8 with every outcome vector and EVERY completion order for n=3, sizes around the 127/128/129 and 255/256/257 chunk boundaries, random sizes) × 0…130 -base/-diff_base sources, each source independently a valid profile (from the Fetcher plug-in, a file, or an HTTP body), or failing (Fetcher error, missing file, garbage file/body, invalid profile, HTTP 500, transport error); a stream of 2…8 sources (+ bases) mixing https:// (untrusted server: must fail; server trusted through -tls_ca: must succeed), https+insecure://, http:// and file/plug-in sources fetched through the PRODUCTION internal/transport against servers on 127.0.0.1, released one after the other in PRNG permutations, all-insecure-first and all-strict-first orders, plus one delay-scheduled run through the driver's default transport wiring; a stream of 2…7 sources (+ bases) whose mappings (same file name under several build ids, some without build id) are located under a generated $PPROF_BINARY_PATH tree (<buildid>/<name>, plain <name>, stale and missing entries) through a mock ObjTool, with failing neighbours, under ≥3 delay schedules; a stream of perf.data sources with EQUAL base names in different directories, converted concurrently by a stand-in perf_to_profile (this binary re-executed) whose writes and exits are staggered so that the conversions overlap; a stream of bursts (40…200 local profile files mixed with PERFILE2-prefixed files — convertible, failing, and unconvertible because PATH lacks the tool — all released into pprof's fetch code at the same instant, 4 rounds each); a stream through driver.PProf with the DEFAULT UI (Options.UI == nil) in a child process whose stderr is a one-page pipe with a slow reader, ≥100 failing sources and ≥100 failing bases, 8 rounds: every stderr line is exactly one complete message; a stream of sources reporting the same sample types in different compatible units (ns/us/ms/s, bytes/kB/MB) in every position with failing neighbours (merged values = sum of the per-source values converted to the finest unit among the successful ones); each case runs the real driver.PProf under ≥3 PRNG-derived delay schedules (random, reverse, failures-first) and with the failing sources failing differently. non-trivial = ≥2 sources, at least one success and one failure, an observed completion order that is not the command-line order and ≥2 distinct observed completion orders."
 	root, err := os.MkdirTemp("", "pvc16-")
 	if err != nil {
 		c.Res.HarnessError = "cannot create scratch directory: " + err.Error()
@@ -1744,10 +1782,18 @@ func c16Worker(c *Ctx) {
 		return
 	}
 	r := NewRng(c.Seed)
-	deadline := c.Start.Add(time.Duration(30*c.Scale) * time.Second)
+	deadline := c.Start.Add(time.Duration(40*c.Scale) * time.Second)
 
 	// CLI cases (run after the boundary cases)
 	var cliCases []*c16Case
+	{ // many failing sources and a failing base through the binary's own UI
+		rr := r.Fork()
+		cs := &c16Case{Name: "cli-many-failing", CLI: true}
+		cs.Sources = c16GenSrcs(rr, 150, 95, c16CLIFail, []string{c16OKFile})
+		cs.Sources[77] = c16Src{Kind: c16OKFile, Seed: rr.U64() >> 16}
+		cs.Bases = c16GenSrcs(rr, 1, 100, c16CLIFail, []string{c16OKFile})
+		cliCases = append(cliCases, cs)
+	}
 	for i, n := range []int{1, 2, 3, 7, 127, 128, 129, 200, 257} {
 		rr := r.Fork()
 		cs := &c16Case{Name: fmt.Sprintf("cli-%d", n), CLI: true}
@@ -1799,6 +1845,16 @@ func c16Worker(c *Ctx) {
 		for i := 0; i < 5*c.Scale; i++ {
 			k.runCase(c16GenPerf(r.Fork(), i))
 		}
+	}
+	// (1f) bursts: many local profile files and PERFILE2 look-alikes fetched at the same instant
+	if perfErr == nil {
+		for i := 0; i < 6*c.Scale; i++ {
+			k.runCase(c16GenBurst(r.Fork(), i))
+		}
+	}
+	// (1g) the driver's default UI: error lines of the two groups printed concurrently
+	for i := 0; i < 3*c.Scale; i++ {
+		k.runCase(c16GenStdUI(r.Fork(), i))
 	}
 	// (1e) the same sample types in different compatible units
 	for i := 0; i < 10*c.Scale; i++ {
